@@ -55,6 +55,28 @@ CLAIMS = {
    note="'not wrapped in a TRY block' is modelled as the fork op's failure being uncatchable; the registry side (add_opcode/add_soft_fork handlers) is exercised, not modelled.",
    technique="Lean 4 proof (simulation relation over the op DSL, decide +kernel table obligations) + exhaustive NOP grid + fresh-interpreter fork differential",
    design="§5 C20"),
+ 'C02': dict(
+   text="Proved for arbitrary hash / curve parameters: the CHECK_SIG op term computes the pure specification SigPure.checkSig by symbolic execution (pops key and signature, then raises exactly the specification's error or pushes exactly its Boolean); "
+        "the eight per-bit flag tests equal the mask test for all 256x256 (flag, allowed) pairs (kernel-evaluated whole table); a non-permitted flag bit is a ScriptExecutionError and a wrong key / signature length a ValueError - never true; "
+        "otherwise the result is exactly verify(key, flag-selected message, sig[:64]); sign-then-check succeeds for every allowed flag under the completeness hypothesis of the scheme; caches agreeing on the covered fields give the same message (excluded fields irrelevant). "
+        "Tie: CHECK_SIG / CHECK_SIG_VERIFY / SIGN / SIGN_STACK / CHECK_SIG_STACK / GET_MESSAGE scripts judged on the implementation alone by an independent reference (message from the property's sentence, PyNaCl verify), single-bit corruptions of key / signature / covered field, excluded-field changes, wrong lengths; model compared; the model's Ed25519 validated against libsodium each run.",
+   note="'any change to a covered field / key / signature makes the check fail' is cryptographic soundness: exercised by corruption cases, not a theorem (would need message-binding / unforgeability idealisations); completeness of Ed25519 is a hypothesis of sign_then_check.",
+   technique="Lean 4 proof (symbolic execution refinement of the op term to a pure spec, decide +kernel over the 65536-entry flag table) + reference-oracle differential",
+   design="§5 C02"),
+ 'C03': dict(
+   text="Proved about the pure specification SigPure.multisig (well-formed inputs): its verdict is the greedy matching verdict; SOUNDNESS unconditional - true implies the signatures are pairwise distinct and matched, in order, each to a different listed key under which it is valid (sub-multiset of the keys), so fewer than m distinct signers never pass; "
+        "COMPLETENESS and ORDER INDEPENDENCE (any permutation of keys and of signatures) under the unique-signer hypothesis; an error is never true. "
+        "Tie: the pure specification is compared with the implementation directly (MSPURE lines) and the VM op term through RUN lines; every case is judged on the implementation alone by brute-force injective matching with PyNaCl verify over listed signers / outsiders / duplicates / flag variants / malformed items in shuffled (thorough: all) orders; make_multisig_lock's quorum guard and bytes over bytes/VerifyKey key lists.",
+   note="the op-term-to-pure-spec refinement is proved for CHECK_SIG (C02) but for CHECK_MULTISIG it is tied differentially, not proved; unique signer is a named hypothesis.",
+   technique="Lean 4 proof (greedy matching soundness/completeness over List.Subperm, Mathlib) + brute-force matching oracle + differential correspondence of pure spec and op term",
+   design="§5 C03"),
+ 'C09': dict(
+   text="In the model the configuration is a read-only parameter closed over by the op table and the interpreter hands the same table and limits to every nested run (stated as equations); proved: SET_FLAG always errors and UNSET_FLAG is a no-op on every flag (the full statement of known finding K2); "
+        "the signature-extension prelude logs each installed plugin exactly once, in order, and every signature-related instruction (GET_MESSAGE, CHECK_SIG(_VERIFY), CHECK_MULTISIG, SIGN, CHECK_TEMPLATE under flag 10) starts with exactly that prelude. "
+        "Tie: the behavioural table 'nesting x configuration kind -> observable' is measured on the implementation: bounded-exhaustive nestings of the 10 constructs to depth 2 (quick) / 3 (thorough) around probes for every flag 0-10, thresholds, disallow_OP_EVAL, eval_return, plugins (exactly-once log), check_template plugins, contracts, item-size limit; nested observable must equal top-level observable (implementation alone), and model = implementation on every probe script.",
+   note="uniformity for depth > 3 rests on the structural argument (configuration is not part of any state the interpreter threads), not on enumeration.",
+   technique="Lean 4 proof (structural: configuration outside the threaded state; symbolic execution of flag instructions and plugin prelude) + bounded-exhaustive behavioural table on the implementation",
+   design="§5 C09"),
  'C10': dict(
    text="Lean theorems over all integers / all byte strings: bytesToInt (intToBytes n) = some n, decoding total exactly on non-empty strings, decoded range, "
         "top bit of the encoding = sign, and minimality of the encoding (no shorter string decodes to n). The model is tied to int_to_bytes / bytes_to_int / "
